@@ -67,9 +67,99 @@ def Hist.norm (hs : Hist) : Hist := { st := hs.st.core, live := hs.live }
 
 theorem step_norm (hs : Hist) (op : Op) (os : List OsDir) : hs.norm.step op os = hs.step op os := rfl
 
-theorem run_norm (ops : List (Op × List OsDir)) : ∀ hs : Hist, hs.norm.run ops = hs.run ops := by
-  induction ops with
-  | nil => intro hs; simp [Hist.run]; sorry
-  | cons x rest ih => sorry
+theorem run_norm_cons (x : Op × List OsDir) (rest : List (Op × List OsDir)) (hs : Hist) :
+    hs.norm.run (x :: rest) = hs.run (x :: rest) := by
+  obtain ⟨op, os⟩ := x
+  simp only [Hist.run, step_norm]
+
+/-- `n` rounds of the same workload (same operations, same OS answers) -/
+def rounds (W : List (Op × List OsDir)) : Nat → Hist → M Hist
+  | 0, hs => pure hs
+  | n + 1, hs => do
+    let (hs1, _) ← hs.run W
+    rounds W n hs1
+
+/-- Determinism gives a fixpoint: if one round of a workload `W` (operations together with the OS
+answers they receive — none at all when the round needs no OS call) takes the allocator from `hs`
+to a state `hs'` whose allocator-relevant part equals that of `hs`, then every further round ends
+in exactly `hs'` again: same layout, same footprint, same OS calls — for any number of rounds. -/
+theorem cycle_fixpoint (W : List (Op × List OsDir)) (hne : W ≠ []) (hs hs' : Hist) (evs : List OsEv)
+    (h : hs.run W = .ok (hs', evs)) (heq : hs'.norm = hs.norm) :
+    ∀ n, rounds W (n + 1) hs = .ok hs' ∧ hs'.run W = .ok (hs', evs) := by
+  have hfix : hs'.run W = .ok (hs', evs) := by
+    cases W with
+    | nil => exact absurd rfl hne
+    | cons x rest => rw [← run_norm_cons, heq, run_norm_cons]; exact h
+  intro n
+  refine ⟨?_, hfix⟩
+  induction n generalizing hs with
+  | zero => simp only [rounds, bind_ok, pure_ok]; exact ⟨_, h, rfl⟩
+  | succ k ih =>
+    simp only [rounds, bind_ok]
+    refine ⟨_, h, ?_⟩
+    have := ih hs' hfix rfl
+    simpa [rounds, bind_ok] using this
+
+/-! ## sys_trim: what a served trim leaves, and release of unused segments -/
+
+/-- arithmetic of `sys_trim`: the amount `extra` it asks the OS to take back leaves `top` with more
+than `pad` and at most `pad` + one granule -/
+theorem trim_leaves_at_most_a_granule (topsize pad : Nat) (h : topsize > pad) :
+    let extra := ((topsize - pad + DEFAULT_GRANULARITY - 1) / DEFAULT_GRANULARITY - 1) * DEFAULT_GRANULARITY
+    extra < topsize - pad ∧ topsize - extra ≤ pad + DEFAULT_GRANULARITY ∧ extra % DEFAULT_GRANULARITY = 0 := by
+  simp only [DEFAULT_GRANULARITY]
+  omega
+
+/-! ## non-vacuity: concrete histories (evaluated by the kernel) -/
+
+theorem ok_of_match {α : Type} {x : M α} {p : α → Bool}
+    (h : (match x with | .ok v => p v | .error _ => false) = true) : ∃ v, x = .ok v ∧ p v = true := by
+  cases x with
+  | ok v => exact ⟨v, rfl, h⟩
+  | error e => cases h
+
+/-- first round on a fresh allocator: the OS serves one 64 KiB mapping at 1 MiB -/
+def W1 : List (Op × List OsDir) := [(.malloc 1 100 8, [.m (some 1048576)]), (.free 1, [])]
+/-- a round that needs no OS call -/
+def W2 : List (Op × List OsDir) :=
+  [(.malloc 1 100 8, []), (.calloc 2 300 8, []), (.realloc 2 5000, []), (.free 2, []), (.free 1, [])]
+
+def afterW1 : Hist := match Hist.init.run W1 with
+  | .ok (hs, _) => hs
+  | .error _ => Hist.init
+
+set_option maxRecDepth 20000 in
+example : ∃ hs evs, Hist.init.run W1 = .ok (hs, evs) ∧ hs.st.footprint = 65536 ∧ got evs = 65536 := by
+  obtain ⟨v, hv, hp⟩ := ok_of_match (x := Hist.init.run W1)
+    (p := fun v => decide (v.1.st.footprint = 65536) && decide (got v.2 = 65536)) (by decide)
+  simp only [Bool.and_eq_true, decide_eq_true_eq] at hp
+  exact ⟨v.1, v.2, hv, hp.1, hp.2⟩
+
+set_option maxRecDepth 20000 in
+/-- hypotheses of `cycle_fixpoint` are satisfiable: W2 from the state after W1 returns to it -/
+example : ∃ hs evs, afterW1.run W2 = .ok (hs, evs) ∧ hs.norm = afterW1.norm ∧ evs = [] := by
+  obtain ⟨v, hv, hp⟩ := ok_of_match (x := afterW1.run W2)
+    (p := fun v => decide (v.1.norm = afterW1.norm) && decide (v.2 = [])) (by decide)
+  simp only [Bool.and_eq_true, decide_eq_true_eq] at hp
+  exact ⟨v.1, v.2, hv, hp.1, hp.2⟩
+
+set_option maxRecDepth 20000 in
+/-- hypotheses of `reuse_without_os`: after W1 `top` holds 65456 bytes, a 100-byte request fits -/
+example : ∃ s' mem, inner_malloc afterW1.st 100 = .ok (s', mem) ∧ nbOf 100 < afterW1.st.h.topsize := by
+  obtain ⟨v, hv, hp⟩ := ok_of_match (x := inner_malloc afterW1.st 100)
+    (p := fun _ => decide (nbOf 100 < afterW1.st.h.topsize)) (by decide)
+  simp only [decide_eq_true_eq] at hp
+  exact ⟨v.1, v.2, hv, hp⟩
+
+set_option maxRecDepth 20000 in
+/-- an OS call happens when nothing fits (hypotheses of `os_call_only_when_nothing_fits`) -/
+example : ∃ s' mem, inner_malloc { afterW1.st with osq := [.m (some 2097152)] } 100000 = .ok (s', mem) ∧
+    s'.evs ≠ afterW1.st.evs := by
+  obtain ⟨v, hv, hp⟩ := ok_of_match (x := inner_malloc { afterW1.st with osq := [.m (some 2097152)] } 100000)
+    (p := fun v => decide (v.1.evs ≠ afterW1.st.evs)) (by decide)
+  simp only [decide_eq_true_eq] at hp
+  exact ⟨v.1, v.2, hv, hp⟩
+
+example : (2097153 : Nat) > 80 := by decide
 
 end TinyVerif.Dl
